@@ -158,7 +158,8 @@ def parse_trace(tracefile, targets, cwd):
     res = {"lines": 0, "calls": 0, "target_writes": [], "n_target_writes": 0,
            "target_write_failed": [], "n_target_write_failed": 0,
            "target_open_rw": 0, "target_open_ro": 0, "target_open_rw_failed": 0,
-           "target_open_roles": set(), "nontarget_writes": 0, "nontarget_files": set(),
+           "target_open_roles": set(), "target_open_rw_roles": set(),
+           "nontarget_writes": 0, "nontarget_files": set(),
            "unparsed": 0, "pids": set()}
     pending = {}
     try:
@@ -216,6 +217,7 @@ def parse_trace(tracefile, targets, cwd):
                     res["target_open_roles"].add(role)
                     if wr:
                         res["target_open_rw"] += 1
+                        res["target_open_rw_roles"].add(role)
                         if "O_TRUNC" in fl:
                             res["n_target_writes"] += 1
                             if len(res["target_writes"]) < 12:
@@ -254,6 +256,7 @@ def parse_trace(tracefile, targets, cwd):
                     res["target_write_failed"].append((role, line))
     res["pids"] = len(res["pids"])
     res["target_open_roles"] = sorted(res["target_open_roles"])
+    res["target_open_rw_roles"] = sorted(res["target_open_rw_roles"])
     res["nontarget_files"] = sorted(res["nontarget_files"])
     return res
 
